@@ -211,7 +211,43 @@ def c11(run):
                         "every configuration of a history uses the same data directory (the statement: same data directory)"]
 
 
-PROPS = {"C01": c01, "C11": c11, "C03": c03, "C05": c05, "C17": c17, "C02": c02, "C06": c06, "C04": c04, "C12": c12, "C13": c13, "C14": c14}
+def c09(run):
+    run.sites = {"store", "panic"}
+    rounds = 60 if run.quick() else 400
+    tlc, s = run_record_validate(run, "store", "store", "Trace_Store.tla", "C09", "store", rounds, shards=8)
+    run.add(tlc, s)
+    run.rule = ("impl -> spec: 8 recorded sessions x %d rounds of the commit-heavy driver (real words with several candidates, optionally wrapped in "
+                "punctuation / quotes / colon / back-tick, smart quotes and English on/off, random non-preselected commits, re-typing the same text, "
+                "another wrapping, the word + a known suffix, restarts = new context over the same directory, store file inspected after every commit); "
+                "TLC validates every trace against Trace_Store (learned map evolves by the spec's own KeyOf/StripCand/Join; each shown list must "
+                "preselect the learned/joined candidate; committing the preselected index changes nothing; file always absent or valid).  "
+                "Non-trivial = every round (each contains learning commits)." % rounds)
+    run.assumptions += ["facts logged by the recorder: transliteration of the wrapping punctuation (okkhor oracle) and its curled form",
+                        "the driver passes the preselected index it was last shown as selection byte (what a front-end does)"]
+
+
+def c10(run):
+    run.sites = {"fault", "panic"}
+    n = 3 if run.quick() else 5
+    tlc, s = run_tlc_replay(run, "MC_Fault", "MC_Fault.tla",
+                            dict(spec="Spec", constants={"MaxSteps": n},
+                                 invariants=["Robust", "LoadedIsOnDisk", "LosesAtMostNew", "SaveLeavesValid", "Emit"]),
+                            "C10", workers=4, threads=8, timeout=7000)
+    run.add(tlc, s)
+    run.extra["level"] = "model_checking"
+    run.rule = ("TLC enumerates environments (selection file x auto-correct file in {absent, valid, empty, torn, wrongshape, emptyentries} x directory in "
+                "{ok, missing, blocked}) x every event sequence of length %d over {new, type, learning commit, crash in the middle of a save, restart, "
+                "update-engine}, checks Robust / LoadedIsOnDisk / LosesAtMostNew / SaveLeavesValid on the model and emits every scenario; the harness "
+                "concretises torn as EVERY proper byte prefix of a store the engine itself wrote (all crash points of the non-atomic save), wrongshape as a "
+                "16-document corpus (array, number, null, nested/non-string values, invalid UTF-8, BOM, trailing comma, blank), emptyentries as 5 documents, "
+                "missing/blocked directory (path occupied by a regular file); no event may panic, a context over unreadable content must render 6 probe words "
+                "(incl. suffix forms) exactly like one started with the files absent, a choice whose save failed must still be preselected in the same context, "
+                "a completed save must leave a loadable file.  Non-trivial = scenarios with at least one differential or persistence comparison." % n)
+    run.assumptions += ["complete prefix/corpus sweep once per environment and worker thread, rotating samples of 4 concretisations for further event sequences over it",
+                        "the sandbox runs as root: 'not writable' is simulated by occupying the directory path with a regular file"]
+
+
+PROPS = {"C01": c01, "C09": c09, "C10": c10, "C11": c11, "C03": c03, "C05": c05, "C17": c17, "C02": c02, "C06": c06, "C04": c04, "C12": c12, "C13": c13, "C14": c14}
 
 
 def replay_file(run, path):
